@@ -13,7 +13,7 @@ RULE = ("files written from generated frames (C01 generator), partitioned datase
         "list/dict/None, index, pandas_nulls True/False, dtypes override); non-trivial = prediction compared with a read that "
         "returned >=1 column; distinct = distinct (source, kinds, option set) tuples")
 ASSUMPTIONS = ["the actual read is the oracle", "a prediction of 'category' matches any CategoricalDtype"]
-CASE_TIMEOUT = 240
+CASE_TIMEOUT = 120
 
 from vf.gen import datasets as D
 from vf.gen import frames as F
@@ -131,6 +131,11 @@ def run_case(case):
                 if dcols:
                     optsets.append({"categories": [dcols[0]]})
                     optsets.append({"categories": {dcols[0]: 64}})
+            if filecols:
+                # a read with a caller-supplied dtypes mapping for a subset of the columns (here: the handle's own answer for them)
+                k = int(rng.integers(1, len(filecols) + 1))
+                sub = [filecols[i] for i in rng.permutation(len(filecols))[:k]]
+                optsets.append({"columns": sub, "index": False, "dtypes": {c: pf.dtypes[c] for c in sub}})
             # the default read again at the end, on the same handle: answers must not depend on what was asked before
             optsets.append({"_repeat_default": True})
             first_default = {}
@@ -142,6 +147,8 @@ def run_case(case):
                     dts = str(pf.dtypes.get(ix))
                     if dts[:3] in ("Int", "UIn") or dts == "boolean":
                         continue  # masked column as index: known finding of C06, not a prediction question
+                if "dtypes" in o:
+                    counters["reads_with_dtypes_mapping"] = counters.get("reads_with_dtypes_mapping", 0) + 1
                 okey = (case["src"], pandas_nulls, tuple(sorted(o)))
                 got_first = None
                 if repeat:
@@ -152,6 +159,8 @@ def run_case(case):
                         got_first = e
                 try:
                     pred_dt = dict(pf._dtypes(o.get("categories"))) if "categories" in o else dict(pf.dtypes)
+                    if "dtypes" in o:
+                        pred_dt = dict(o["dtypes"])      # the caller's mapping is the prediction for this read
                     pred_cols = list(pf.columns)
                     pred_cats = list(pf.cats)
                     pred_index = pf._get_index(o.get("index"))
@@ -170,7 +179,8 @@ def run_case(case):
                     counters["read_raised:" + type(e).__name__] = counters.get("read_raised:" + type(e).__name__, 0) + 1
                     continue   # a failing read is C01/C03/C06's business
                 counters["optionsets_compared"] = counters.get("optionsets_compared", 0) + 1
-                ctx = {"opts": o, "pandas_nulls": pandas_nulls, "src": case["src"], "repeat": repeat}
+                ctx = {"opts": {k_: ({c_: str(d_) for c_, d_ in v_.items()} if k_ == "dtypes" else v_) for k_, v_ in o.items()},
+                       "pandas_nulls": pandas_nulls, "src": case["src"], "repeat": repeat}
                 if not o:
                     sig = ([str(c) for c in got.columns], [str(d) for d in got.dtypes], {k_: str(v_) for k_, v_ in pred_dt.items()})
                     if not repeat:
@@ -253,4 +263,4 @@ def run_case(case):
 
 
 def required(tier):
-    return {"optionsets_compared": 1500, "dtype_predictions": 5000, "pandas_nulls_false_compared": 500, "row_group_parts_predicted": 300}
+    return {"optionsets_compared": 1500, "dtype_predictions": 5000, "pandas_nulls_false_compared": 500, "row_group_parts_predicted": 300, "reads_with_dtypes_mapping": 200}
